@@ -325,7 +325,8 @@
             (dst (make-bytevector
                   (arithmetic-shift (quotient encode-src-length 3) 2))))
         (let lp ()
-          (let ((n (read-bytevector! src in 0 encode-src-length)))
+          (let* ((n (read-bytevector! src in 0 encode-src-length))
+                 (n (if (eof-object? n) 0 n)))
             (base64-encode-bytevector! src 0 n dst)
             (write-bytevector dst out 0 (* 4 (quotient (+ n 2) 3)))
             (if (= n encode-src-length)
